@@ -706,7 +706,6 @@ func checkMaskedBase(c *Ctx, rule, ph string) {
 	_ = nNets
 }
 
-
 // messageBuiltHere: v may be a protobuf message allocated (new / composite literal / proto.Clone) in the function
 // that uses it, possibly taken back out of a local slice it was appended to.
 func messageBuiltHere(v ssa.Value, depth int, seen map[ssa.Value]bool) bool {
